@@ -113,10 +113,4 @@ Fixpoint parse_decls (ds : list decl) : res (list rawconv) :=
 Definition rawconv_eqb (a b : rawconv) : bool :=
   rstr_eqb (rc_iface a) (rc_iface b) && list_eqb rstr_eqb (rc_lines a) (rc_lines b)
   && list_eqb (pair_eqb rstr_eqb (list_eqb rstr_eqb)) (rc_methods a) (rc_methods b).
-Definition res_eqb {A} (e : A -> A -> bool) (x y : res A) : bool :=
-  match x, y with
-  | Ok a, Ok b => e a b
-  | Diag c, Diag d => c =? d
-  | Panic _, Panic _ => true
-  | _, _ => false
-  end.
+
